@@ -430,6 +430,9 @@ func (h *H[T]) C10(rc *runCtx) *Violation {
 	var result *Violation
 	sim.Go("caller", func(*simrt.Task) { result = body() })
 	sim.Run(2 * cont)
+	if sim.LibPanicked {
+		return nil // cut short without a verdict; nothing the abandoned tasks left behind may be read
+	}
 	return result
 }
 
